@@ -1,6 +1,10 @@
 // ===== shims/strshim.rs — str operations used by the parser (R6, R9) =====
 verus! {
 
+// i is a UTF-8 character boundary of b (std: 0, len, or a byte that is not a continuation byte)
+pub uninterp spec fn is_boundary(b: Seq<u8>, i: int) -> bool;
+pub proof fn axiom_boundary_ends(b: Seq<u8>) ensures is_boundary(b, 0), is_boundary(b, b.len() as int) { admit(); }
+
 // R6: `s[a..b]` on a str: std panics unless both ends are character boundaries within the string
 #[verifier::external_body]
 pub fn str_slice<'a>(s: &'a str, a: usize, b: usize) -> (r: &'a str)
